@@ -63,7 +63,7 @@ def merge():
     with open("/verif/seeded/SCOREBOARD.md", "w") as f:
         f.write("# Seeded defects vs the quick tier of their property's check\n\nProduced by `seeded_regress.py` (patch applied to a scratch worktree, harness rebuilt against it, the property's quick instruments run with seed 1 in the order of checks_table.py, first detecting instrument shown).\n\n| id | verdict | first detecting instrument: evidence |\n|---|---|---|\n")
         for sid, v, by, _ in rows:
-            f.write("| %s | %s | %s |\n" % (sid, v, by.replace("|", "\\|")[:300]))
+            f.write("| %s | %s | %s |\n" % (sid, v, by.replace("|", "\\|").replace("\n", " ")[:300]))
         f.write("\n%d of %d detected, %d neutralised by a later fix.\n" % (sum(1 for r in rows if r[1] == "detected"), len(rows), sum(1 for r in rows if r[1] == "neutralised")))
     print("%d of %d detected" % (sum(1 for r in rows if r[1] == "detected"), len(rows)))
 
@@ -119,6 +119,6 @@ def main():
         with open("/verif/seeded/SCOREBOARD.md", "w") as f:
             f.write("# Seeded defects vs the quick tier of their property's check\n\nProduced by `seeded_regress.py` (patch applied to a scratch worktree, harness rebuilt against it, the property's quick instruments run with seed 1, first detecting instrument shown).\n\n| id | verdict | first detecting instrument: evidence |\n|---|---|---|\n")
             for sid, v, by, _ in rows:
-                f.write("| %s | %s | %s |\n" % (sid, v, by.replace("|", "\\|")[:300]))
+                f.write("| %s | %s | %s |\n" % (sid, v, by.replace("|", "\\|").replace("\n", " ")[:300]))
             f.write("\n%d of %d detected.\n" % (sum(1 for r in rows if r[1] == "detected"), len(rows)))
 main()
